@@ -396,9 +396,12 @@ func init() {
 		readers := []int{0, 2, 10}      // Load, LoadOrStore (hit), Size
 		for _, w := range writers {
 			for _, r := range readers {
+				if w == 8 && r == 2 {
+					continue // after Clear no key is present: the LoadOrStore hit path does not exist
+				}
 				args := append([]int64{int64(w), int64(r)}, extra...)
 				is = append(is, eng.Instance{Name: fmt.Sprintf("%s/writer=%s/reader=%s", prefix, mapOps[w], mapOps[r]), Pkg: "xsync", Func: fn, Args: args,
-					Cfg: eng.Config{DefaultUnwind: 3, Rounds: 1, NoResize: map[int]bool{0: true, 1: true}}})
+					Cfg: eng.Config{DefaultUnwind: 9, Rounds: 1, NoResize: map[int]bool{0: true, 1: true}}})
 			}
 		}
 		return is
